@@ -8,6 +8,7 @@
 #include "thrsim.h"
 
 uint64_t thr_shadow_overflow();
+std::string thr_symbol_off(uint32_t off);
 extern uint64_t g_thr_step_cap;
 
 namespace {
@@ -119,7 +120,6 @@ struct ThrEngine : Engine {
 	}
 
 	Json execute(const Json & plan, bool verbose) override {
-		(void)verbose;
 		apply_env(plan);
 		int nthreads = (int)plan.geti("nthreads", 2);
 		const Json & ops = plan.at("ops");
@@ -170,6 +170,13 @@ struct ThrEngine : Engine {
 		pj["preempt_in_ran_array"] = (int64_t)g_thr.preempt_in_ran_array; pj["preempt_in_zip"] = (int64_t)g_thr.in_zip_overlap; pj["preempt_in_html_export"] = (int64_t)g_thr.in_html_export_overlap;
 		res["probes"] = pj;
 		res["schedule_hash"] = hex64(g_thr.schedule_hash);
+		if (verbose) {
+			// the explicit schedule (a pure function of schedule_seed and the code): which thread got the baton, and where the giver stood
+			Json tr = Json::array();
+			size_t n = 0;
+			for (auto & h : g_thr.trace) { if (n++ >= 400) break; tr.push("T" + std::to_string(h.first) + "@" + thr_symbol_off(h.second)); }
+			res["schedule_trace_head"] = tr; res["schedule_handovers"] = (int64_t)g_thr.switches;
+		}
 		Json st = Json::array();
 		st.push("sched:" + hex64(g_thr.schedule_hash));
 		for (auto & l : locs) st.push("raceloc:" + l);
